@@ -85,6 +85,21 @@ func (vc *VC) specialCall(st *State, fn *types.Func, recvExpr ast.Expr, call *as
 			return sc(r, SRef), true
 		}
 		return &TupleV{}, true
+	case pkg == "encoding/gob" && rt == "Decoder" && name == "Decode":
+		// A-GOB: decoding overwrites the fields of the target object with arbitrary values (or fails)
+		vc.eval(st, recvExpr)
+		if v, ok := vc.eval(st, call.Args[0]).(*Scalar); ok && v.S == SRef {
+			if et, isPtr := derefType(vc.typeOf(call.Args[0])); isPtr && classify(et) == kStruct {
+				p := place{kind: pHeap, ref: v.T, owner: typeKey(et), typ: et}
+				vc.storePlace(st, p, vc.freshVal(et, "decoded"))
+			}
+		}
+		return sc(vc.declare("gob.err", SRef), SRef), true
+	case pkg == "errors" && name == "New":
+		vc.evalArgs(st, call)
+		e := vc.declare("errors.New", SRef)
+		vc.assume(st, not(eq(e, "nil")))
+		return sc(e, SRef), true
 	case pkg == "sync" && rt == "WaitGroup":
 		vc.evalArgs(st, call)
 		return &TupleV{}, true
